@@ -93,19 +93,19 @@ theorem save_spec (st : RwZip) (nm : Name) (w : Bool) (c : Content) (hok : ModeO
 
 /-! ### one `add` -/
 
-theorem add_eq (s : ZipSaver) (ss : Sig) (nm : Name) (w : Bool)
+theorem addOld_eq (s : ZipSaver) (ss : Sig) (nm : Name) (w : Bool)
     (h : genName s.st.zf ss.md5 (.sigs [ss]) = (nm, w)) :
-    s.add ss = { st := (s.st.save (nm, w) (.sigs [ss])).1,
-                 rows := s.rows ++ [mkRow ss (some (s.st.save (nm, w) (.sigs [ss])).2)] } := by
-  simp only [ZipSaver.add, RwZip.saveSig, h]
+    s.addOld ss = { st := (s.st.save (nm, w) (.sigs [ss])).1,
+                    rows := s.rows ++ [mkRow ss (some (s.st.save (nm, w) (.sigs [ss])).2)] } := by
+  simp only [ZipSaver.addOld, RwZip.saveSigOld, h]
 
-theorem add_spec (s : ZipSaver) (ss : Sig) (hok : ModeOK s.st) :
-    ∃ m : MName, m.md5 = ss.md5 ∧ (s.add ss).rows = s.rows ++ [mkRow ss (some (.sig m))] ∧
-      ModeOK (s.add ss).st ∧ ((s.add ss).st.buf = none ↔ s.st.buf = none) ∧
-      (∀ n, read s.st.zf n ≠ none → read (s.add ss).st.zf n ≠ none) ∧
-      ((read s.st.zf (.sig m) = some (.sigs [ss]) ∧ ∀ n, view (s.add ss).st n = view s.st n) ∨
+theorem addOld_spec (s : ZipSaver) (ss : Sig) (hok : ModeOK s.st) :
+    ∃ m : MName, m.md5 = ss.md5 ∧ (s.addOld ss).rows = s.rows ++ [mkRow ss (some (.sig m))] ∧
+      ModeOK (s.addOld ss).st ∧ ((s.addOld ss).st.buf = none ↔ s.st.buf = none) ∧
+      (∀ n, read s.st.zf n ≠ none → read (s.addOld ss).st.zf n ≠ none) ∧
+      ((read s.st.zf (.sig m) = some (.sigs [ss]) ∧ ∀ n, view (s.addOld ss).st n = view s.st n) ∨
        (read s.st.zf (.sig m) = none ∧
-        ∀ n, view (s.add ss).st n = if n = .sig m then some (.sigs [ss]) else view s.st n)) := by
+        ∀ n, view (s.addOld ss).st n = if n = .sig m then some (.sigs [ss]) else view s.st n)) := by
   have hspec := genName_spec s.st.zf ss.md5 (.sigs [ss])
   cases hgen : genName s.st.zf ss.md5 (.sigs [ss]) with
   | mk nm w =>
@@ -114,7 +114,7 @@ theorem add_spec (s : ZipSaver) (ss : Sig) (hok : ModeOK s.st) :
   simp only at hname hfalse htrue
   subst hname
   obtain ⟨h1, h2, h3, h4, h5⟩ := save_spec s.st _ w (.sigs [ss]) hok htrue
-  rw [add_eq s ss _ w hgen]
+  rw [addOld_eq s ss _ w hgen]
   refine ⟨⟨ss.md5, sfx⟩, rfl, by simp only [h1], h4, h2, h3, ?_⟩
   cases w with
   | false =>
@@ -124,27 +124,27 @@ theorem add_spec (s : ZipSaver) (ss : Sig) (hok : ModeOK s.st) :
     right
     exact ⟨htrue rfl, fun n => by simpa using h5 n⟩
 
-theorem addPatched_eq (s : ZipSaver) (ss : Sig) (b : Zip) (nm : Name) (w : Bool) (hb : s.st.buf = some b)
+theorem add_eq (s : ZipSaver) (ss : Sig) (b : Zip) (nm : Name) (w : Bool) (hb : s.st.buf = some b)
     (h : genNameR (readBoth s.st.zf b) (s.st.zf.length + b.length + 1) ss.md5 (.sigs [ss]) = (nm, w)) :
-    s.addPatched ss = { st := (s.st.save (nm, w) (.sigs [ss])).1,
+    s.add ss = { st := (s.st.save (nm, w) (.sigs [ss])).1,
                         rows := s.rows ++ [mkRow ss (some (s.st.save (nm, w) (.sigs [ss])).2)] } := by
-  simp only [ZipSaver.addPatched, RwZip.saveSigPatched, hb, h]
+  simp only [ZipSaver.add, RwZip.saveSig, hb, h]
 
 /-- the same for the PATCHED name search (consults the buffer too): a write never hits a name the final
     file would already hold -/
-theorem addPatched_spec (s : ZipSaver) (ss : Sig) (hok : ModeOK s.st) :
-    ∃ m : MName, m.md5 = ss.md5 ∧ (s.addPatched ss).rows = s.rows ++ [mkRow ss (some (.sig m))] ∧
-      ModeOK (s.addPatched ss).st ∧ ((s.addPatched ss).st.buf = none ↔ s.st.buf = none) ∧
-      (∀ n, read s.st.zf n ≠ none → read (s.addPatched ss).st.zf n ≠ none) ∧
-      ((view s.st (.sig m) = some (.sigs [ss]) ∧ ∀ n, view (s.addPatched ss).st n = view s.st n) ∨
+theorem add_spec (s : ZipSaver) (ss : Sig) (hok : ModeOK s.st) :
+    ∃ m : MName, m.md5 = ss.md5 ∧ (s.add ss).rows = s.rows ++ [mkRow ss (some (.sig m))] ∧
+      ModeOK (s.add ss).st ∧ ((s.add ss).st.buf = none ↔ s.st.buf = none) ∧
+      (∀ n, read s.st.zf n ≠ none → read (s.add ss).st.zf n ≠ none) ∧
+      ((view s.st (.sig m) = some (.sigs [ss]) ∧ ∀ n, view (s.add ss).st n = view s.st n) ∨
        (view s.st (.sig m) = none ∧
-        ∀ n, view (s.addPatched ss).st n = if n = .sig m then some (.sigs [ss]) else view s.st n)) := by
+        ∀ n, view (s.add ss).st n = if n = .sig m then some (.sigs [ss]) else view s.st n)) := by
   cases hb : s.st.buf with
   | none =>
     -- writable zip: identical to the unpatched code
-    obtain ⟨m, h1, h2, h3, h4, h5, h6⟩ := add_spec s ss hok
-    have e : s.addPatched ss = s.add ss := by
-      simp [ZipSaver.addPatched, ZipSaver.add, RwZip.saveSigPatched, RwZip.saveSig, hb]
+    obtain ⟨m, h1, h2, h3, h4, h5, h6⟩ := addOld_spec s ss hok
+    have e : s.add ss = s.addOld ss := by
+      simp [ZipSaver.add, ZipSaver.addOld, RwZip.saveSig, RwZip.saveSigOld, hb]
     have hv : ∀ n, view s.st n = read s.st.zf n := by intro n; simp [view, hb]
     rw [e]
     refine ⟨m, h1, h2, h3, by simpa [hb] using h4, h5, ?_⟩
@@ -178,7 +178,7 @@ theorem addPatched_spec (s : ZipSaver) (ss : Sig) (hok : ModeOK s.st) :
       | none => rfl
       | some d => simp [hz] at this
     obtain ⟨h1, h2, h3, h4, h5⟩ := save_spec s.st _ w (.sigs [ss]) hok hfree
-    have e := addPatched_eq s ss b _ w hb hgen
+    have e := add_eq s ss b _ w hb hgen
     rw [e]
     refine ⟨⟨ss.md5, sfx⟩, rfl, by simp only [h1], h4, by simpa [hb] using h2, h3, ?_⟩
     cases w with
@@ -246,11 +246,11 @@ theorem sinv_step_core (s s' : ZipSaver) (old new : Placed) (ss : Sig) (m : MNam
 
 /-- unpatched code: in a create session (`buf = none`) always; in an append session provided no earlier
     signature of this session has the same md5 and different content -/
-theorem sinv_add (s : ZipSaver) (old new : Placed) (ss : Sig) (inv : SInv s old new)
+theorem sinv_addOld (s : ZipSaver) (old new : Placed) (ss : Sig) (inv : SInv s old new)
     (hc : s.st.buf = none ∨ ∀ p ∈ new, p.2.md5 = ss.md5 → p.2 = ss) :
-    ∃ m, SInv (s.add ss) old (new ++ [(m, ss)]) ∧ ((s.add ss).st.buf = none ↔ s.st.buf = none) := by
-  obtain ⟨m, hm, hrows, hmode, hbuf, hzf, hcase⟩ := add_spec s ss inv.mode
-  refine ⟨m, sinv_step_core s (s.add ss) old new ss m inv hm hrows hmode hzf ?_, hbuf⟩
+    ∃ m, SInv (s.addOld ss) old (new ++ [(m, ss)]) ∧ ((s.addOld ss).st.buf = none ↔ s.st.buf = none) := by
+  obtain ⟨m, hm, hrows, hmode, hbuf, hzf, hcase⟩ := addOld_spec s ss inv.mode
+  refine ⟨m, sinv_step_core s (s.addOld ss) old new ss m inv hm hrows hmode hzf ?_, hbuf⟩
   rcases hcase with ⟨hr, hv⟩ | ⟨hr, hv⟩
   · exact Or.inl ⟨view_of_zf inv.mode hr, hv⟩
   · refine Or.inr ⟨?_, hv⟩
@@ -264,10 +264,10 @@ theorem sinv_add (s : ZipSaver) (old new : Placed) (ss : Sig) (inv : SInv s old 
         simp [view, hnone, hr] at this
       · exact hclash p hn (by rw [← (inv.holds p hp).2, e, hm])
 
-theorem sinv_addPatched (s : ZipSaver) (old new : Placed) (ss : Sig) (inv : SInv s old new) :
-    ∃ m, SInv (s.addPatched ss) old (new ++ [(m, ss)]) ∧ ((s.addPatched ss).st.buf = none ↔ s.st.buf = none) := by
-  obtain ⟨m, hm, hrows, hmode, hbuf, hzf, hcase⟩ := addPatched_spec s ss inv.mode
-  refine ⟨m, sinv_step_core s (s.addPatched ss) old new ss m inv hm hrows hmode hzf ?_, hbuf⟩
+theorem sinv_add (s : ZipSaver) (old new : Placed) (ss : Sig) (inv : SInv s old new) :
+    ∃ m, SInv (s.add ss) old (new ++ [(m, ss)]) ∧ ((s.add ss).st.buf = none ↔ s.st.buf = none) := by
+  obtain ⟨m, hm, hrows, hmode, hbuf, hzf, hcase⟩ := add_spec s ss inv.mode
+  refine ⟨m, sinv_step_core s (s.add ss) old new ss m inv hm hrows hmode hzf ?_, hbuf⟩
   rcases hcase with ⟨hr, hv⟩ | ⟨hr, hv⟩
   · exact Or.inl ⟨hr, hv⟩
   · refine Or.inr ⟨?_, hv⟩
@@ -276,9 +276,9 @@ theorem sinv_addPatched (s : ZipSaver) (old new : Placed) (ss : Sig) (inv : SInv
     rw [e, hr] at this
     cases this
 
-theorem sinv_fold (l : List Sig) : ∀ (s : ZipSaver) (old new : Placed), SInv s old new →
+theorem sinv_foldOld (l : List Sig) : ∀ (s : ZipSaver) (old new : Placed), SInv s old new →
     (s.st.buf = none ∨ ∀ a ∈ new.map (·.2) ++ l, ∀ b ∈ new.map (·.2) ++ l, a.md5 = b.md5 → a = b) →
-    ∃ new', SInv (l.foldl ZipSaver.add s) old new' ∧ new'.map (·.2) = new.map (·.2) ++ l := by
+    ∃ new', SInv (l.foldl ZipSaver.addOld s) old new' ∧ new'.map (·.2) = new.map (·.2) ++ l := by
   induction l with
   | nil => intro s old new inv _; exact ⟨new, inv, by simp⟩
   | cons ss rest ih =>
@@ -289,8 +289,8 @@ theorem sinv_fold (l : List Sig) : ∀ (s : ZipSaver) (old new : Placed), SInv s
       · refine Or.inr ?_
         intro p hp e
         apply h p.2 (by simp; exact Or.inl ⟨p.1, hp⟩) ss (by simp) e
-    obtain ⟨m, inv', hbuf⟩ := sinv_add s old new ss inv hstep
-    have hc' : (s.add ss).st.buf = none ∨ ∀ a ∈ (new ++ [(m, ss)]).map (·.2) ++ rest,
+    obtain ⟨m, inv', hbuf⟩ := sinv_addOld s old new ss inv hstep
+    have hc' : (s.addOld ss).st.buf = none ∨ ∀ a ∈ (new ++ [(m, ss)]).map (·.2) ++ rest,
         ∀ b ∈ (new ++ [(m, ss)]).map (·.2) ++ rest, a.md5 = b.md5 → a = b := by
       rcases hc with h | h
       · exact Or.inl (hbuf.2 h)
@@ -298,18 +298,18 @@ theorem sinv_fold (l : List Sig) : ∀ (s : ZipSaver) (old new : Placed), SInv s
         intro a ha b hb
         apply h a (by simpa [List.map_append, List.append_assoc] using ha)
           b (by simpa [List.map_append, List.append_assoc] using hb)
-    obtain ⟨new', inv'', hmap⟩ := ih (s.add ss) old (new ++ [(m, ss)]) inv' hc'
+    obtain ⟨new', inv'', hmap⟩ := ih (s.addOld ss) old (new ++ [(m, ss)]) inv' hc'
     refine ⟨new', by simpa [List.foldl_cons] using inv'', ?_⟩
     rw [hmap]; simp [List.map_append, List.append_assoc]
 
-theorem sinv_foldPatched (l : List Sig) : ∀ (s : ZipSaver) (old new : Placed), SInv s old new →
-    ∃ new', SInv (l.foldl ZipSaver.addPatched s) old new' ∧ new'.map (·.2) = new.map (·.2) ++ l := by
+theorem sinv_fold (l : List Sig) : ∀ (s : ZipSaver) (old new : Placed), SInv s old new →
+    ∃ new', SInv (l.foldl ZipSaver.add s) old new' ∧ new'.map (·.2) = new.map (·.2) ++ l := by
   induction l with
   | nil => intro s old new inv; exact ⟨new, inv, by simp⟩
   | cons ss rest ih =>
     intro s old new inv
-    obtain ⟨m, inv', _⟩ := sinv_addPatched s old new ss inv
-    obtain ⟨new', inv'', hmap⟩ := ih (s.addPatched ss) old (new ++ [(m, ss)]) inv'
+    obtain ⟨m, inv', _⟩ := sinv_add s old new ss inv
+    obtain ⟨new', inv'', hmap⟩ := ih (s.add ss) old (new ++ [(m, ss)]) inv'
     refine ⟨new', by simpa [List.foldl_cons] using inv'', ?_⟩
     rw [hmap]; simp [List.map_append, List.append_assoc]
 
@@ -366,54 +366,54 @@ theorem good_close (s : ZipSaver) (old new : Placed) (inv : SInv s old new) : Go
 
 /-! ### whole sessions -/
 
+theorem zipSessionOld_create (l : List Sig) :
+    ∃ z placed, zipSessionOld none l = .ok z ∧ Good z placed ∧ placed.map (·.2) = l := by
+  obtain ⟨ho, inv⟩ := sinv_open_none
+  obtain ⟨new, inv', hmap⟩ := sinv_foldOld l _ [] [] inv (Or.inl rfl)
+  refine ⟨_, [] ++ new, by simp [zipSessionOld, ho], good_close _ _ _ inv', by simpa using hmap⟩
+
+theorem zipSessionOld_append (z : Zip) (old : Placed) (l : List Sig) (hg : Good z old)
+    (hl : ∀ a ∈ l, ∀ b ∈ l, a.md5 = b.md5 → a = b) :
+    ∃ z' new, zipSessionOld (some z) l = .ok z' ∧ Good z' (old ++ new) ∧ new.map (·.2) = l := by
+  obtain ⟨ho, inv⟩ := sinv_open_some z old hg
+  obtain ⟨new, inv', hmap⟩ := sinv_foldOld l _ old [] inv (Or.inr (by simpa using hl))
+  exact ⟨_, new, by simp [zipSessionOld, ho], good_close _ _ _ inv', by simpa using hmap⟩
+
 theorem zipSession_create (l : List Sig) :
     ∃ z placed, zipSession none l = .ok z ∧ Good z placed ∧ placed.map (·.2) = l := by
   obtain ⟨ho, inv⟩ := sinv_open_none
-  obtain ⟨new, inv', hmap⟩ := sinv_fold l _ [] [] inv (Or.inl rfl)
+  obtain ⟨new, inv', hmap⟩ := sinv_fold l _ [] [] inv
   refine ⟨_, [] ++ new, by simp [zipSession, ho], good_close _ _ _ inv', by simpa using hmap⟩
 
-theorem zipSession_append (z : Zip) (old : Placed) (l : List Sig) (hg : Good z old)
-    (hl : ∀ a ∈ l, ∀ b ∈ l, a.md5 = b.md5 → a = b) :
+theorem zipSession_append (z : Zip) (old : Placed) (l : List Sig) (hg : Good z old) :
     ∃ z' new, zipSession (some z) l = .ok z' ∧ Good z' (old ++ new) ∧ new.map (·.2) = l := by
   obtain ⟨ho, inv⟩ := sinv_open_some z old hg
-  obtain ⟨new, inv', hmap⟩ := sinv_fold l _ old [] inv (Or.inr (by simpa using hl))
+  obtain ⟨new, inv', hmap⟩ := sinv_fold l _ old [] inv
   exact ⟨_, new, by simp [zipSession, ho], good_close _ _ _ inv', by simpa using hmap⟩
 
-theorem zipSessionPatched_create (l : List Sig) :
-    ∃ z placed, zipSessionPatched none l = .ok z ∧ Good z placed ∧ placed.map (·.2) = l := by
-  obtain ⟨ho, inv⟩ := sinv_open_none
-  obtain ⟨new, inv', hmap⟩ := sinv_foldPatched l _ [] [] inv
-  refine ⟨_, [] ++ new, by simp [zipSessionPatched, ho], good_close _ _ _ inv', by simpa using hmap⟩
-
-theorem zipSessionPatched_append (z : Zip) (old : Placed) (l : List Sig) (hg : Good z old) :
-    ∃ z' new, zipSessionPatched (some z) l = .ok z' ∧ Good z' (old ++ new) ∧ new.map (·.2) = l := by
-  obtain ⟨ho, inv⟩ := sinv_open_some z old hg
-  obtain ⟨new, inv', hmap⟩ := sinv_foldPatched l _ old [] inv
-  exact ⟨_, new, by simp [zipSessionPatched, ho], good_close _ _ _ inv', by simpa using hmap⟩
-
-theorem zipSessions_from_good (rest : List (List Sig)) : ∀ (z : Zip) (old : Placed), Good z old →
+theorem zipSessionsOld_from_good (rest : List (List Sig)) : ∀ (z : Zip) (old : Placed), Good z old →
     (∀ l ∈ rest, ∀ a ∈ l, ∀ b ∈ l, a.md5 = b.md5 → a = b) →
-    ∃ z' placed, zipSessions (some z) rest = .ok (some z') ∧ Good z' placed ∧
+    ∃ z' placed, zipSessionsOld (some z) rest = .ok (some z') ∧ Good z' placed ∧
       placed.map (·.2) = old.map (·.2) ++ rest.flatten := by
   induction rest with
   | nil => intro z old hg _; exact ⟨z, old, rfl, hg, by simp⟩
   | cons l more ih =>
     intro z old hg hc
-    obtain ⟨z1, new, h1, hg1, hm1⟩ := zipSession_append z old l hg (hc l (by simp))
+    obtain ⟨z1, new, h1, hg1, hm1⟩ := zipSessionOld_append z old l hg (hc l (by simp))
     obtain ⟨z2, placed, h2, hg2, hm2⟩ := ih z1 (old ++ new) hg1 (fun l' hl' => hc l' (by simp [hl']))
-    refine ⟨z2, placed, by simp [zipSessions, h1, h2], hg2, ?_⟩
+    refine ⟨z2, placed, by simp [zipSessionsOld, h1, h2], hg2, ?_⟩
     rw [hm2]; simp [List.map_append, hm1, List.append_assoc]
 
-theorem zipSessionsPatched_from_good (rest : List (List Sig)) : ∀ (z : Zip) (old : Placed), Good z old →
-    ∃ z' placed, zipSessionsPatched (some z) rest = .ok (some z') ∧ Good z' placed ∧
+theorem zipSessions_from_good (rest : List (List Sig)) : ∀ (z : Zip) (old : Placed), Good z old →
+    ∃ z' placed, zipSessions (some z) rest = .ok (some z') ∧ Good z' placed ∧
       placed.map (·.2) = old.map (·.2) ++ rest.flatten := by
   induction rest with
   | nil => intro z old hg; exact ⟨z, old, rfl, hg, by simp⟩
   | cons l more ih =>
     intro z old hg
-    obtain ⟨z1, new, h1, hg1, hm1⟩ := zipSessionPatched_append z old l hg
+    obtain ⟨z1, new, h1, hg1, hm1⟩ := zipSession_append z old l hg
     obtain ⟨z2, placed, h2, hg2, hm2⟩ := ih z1 (old ++ new) hg1
-    refine ⟨z2, placed, by simp [zipSessionsPatched, h1, h2], hg2, ?_⟩
+    refine ⟨z2, placed, by simp [zipSessions, h1, h2], hg2, ?_⟩
     rw [hm2]; simp [List.map_append, hm1, List.append_assoc]
 
 /-! ### loading a good zip -/
